@@ -119,6 +119,14 @@ func (b *Builtin) MarshalJSON() ([]byte, error) {
 	return nil, errz.TypeErrorf("type error: unable to marshal builtin")
 }
 
+// inModule returns a builtin with the same function and name as a member of
+// the given module.
+func (b *Builtin) inModule(module *Module) *Builtin {
+	member := *b
+	member.module = module
+	return &member
+}
+
 // NewNoopBuiltin creates a builtin function that has no effect.
 func NewNoopBuiltin(name string, module *Module) *Builtin {
 	b := &Builtin{
